@@ -13,6 +13,7 @@ from ..core import Clause, Violation
 from ..faults import CallFaults, Proxy
 
 META = {
+    "thorough_scale": 3,
     "level": "fault_enumeration",
     "rule": (
         "Generated (initial termios attribute set over the pty slave: subsets of ICANON/ECHO/ECHOE/ISIG/IEXTEN, "
